@@ -947,11 +947,11 @@ package fzf
 // of the pattern in str - the query is edited as runes, so a byte offset would move the cursor too far on
 // non-ASCII text.
 //@ func findFirstMatch
-//@ property C09
+//@ property C09 C14
 //@ ensures -1 <= result
 //@ ensures result == -1 || exists(k, 0, len(str) + 1, result == nrunes(str[0:k]))
 //@ func findLastMatch
-//@ property C09
+//@ property C09 C14
 //@ ensures -1 <= result
 //@ ensures result == -1 || exists(k, 0, len(str) + 1, result == nrunes(str[0:k]))
 // (assumed: the patterns fzf passes match at least one character, so the last match starts before the end)
@@ -960,7 +960,7 @@ package fzf
 // rubout (unix-word-rubout, backward-kill-word): the text between the last word boundary and the cursor
 // moves to the kill buffer - a copy, not a view of the query - and is cut out of the query.
 //@ func Terminal.rubout
-//@ property C09
+//@ property C09 C14
 //@ requires t != nil && 0 <= t.cx && t.cx <= len(t.input)
 //@ modifies t.cx, t.yanked, t.input, t.input[0:cap(t.input)]
 //@ assert @"t.yanked = copySlice" t.cx <= pcx
@@ -1039,7 +1039,7 @@ package fzf
 // Query editing: delete-char removes exactly the character under the cursor and leaves the cursor where it is;
 // truncateQuery (after a paste) keeps the first maxPatternLength characters and puts the cursor back inside the query.
 //@ func Terminal.delChar
-//@ property C09
+//@ property C09 C14
 //@ requires t != nil && 0 <= t.cx && t.cx <= len(t.input)
 //@ modifies t.input, t.input[0:cap(t.input)]
 //@ ensures result == (old(t.cx) < old(len(t.input))) && t.cx == old(t.cx)
@@ -1048,7 +1048,7 @@ package fzf
 //@ ensures result ==> forall(k, 0, t.cx, t.input[k] == old(t.input[k]))
 //@ ensures result ==> forall(k, t.cx, len(t.input), t.input[k] == old(t.input[k + 1]))
 //@ func Terminal.truncateQuery
-//@ property C09
+//@ property C09 C14
 //@ requires t != nil
 //@ modifies t.input, t.cx
 //@ ensures len(t.input) == (old(len(t.input)) < 1000 ? old(len(t.input)) : 1000) && t.input.arr == old(t.input.arr) && t.input.off == old(t.input.off)
